@@ -179,7 +179,144 @@ pub fn roundtrip(ctx: &Ctx, rep: &mut Report) {
     rep.require("signatures_roundtripped", 200);
 }
 
+/// x^j * a in Z[X]/(X^n+1)
+fn shift(a: &[i64], j: usize) -> Vec<i64> {
+    let n = a.len();
+    let mut r = vec![0i64; n];
+    for i in 0..n {
+        let k = i + j;
+        if k < n {
+            r[k] = a[i];
+        } else {
+            r[k - n] = -a[i];
+        }
+    }
+    r
+}
+
+/// Boundary-steered keys. From a generated key (f, g, F, G), every (F + k f, G + k g) is again
+/// an NTRU completion of the same (f, g) with the same public key and the same Gram-Schmidt
+/// norms (the tree leaves do not change). k = c x^j is searched so that the extreme
+/// coefficient of F' or G' is EXACTLY +-127, the edge of the encodable range that generated
+/// keys reach only about once in 10^4 seeds. Such a key must survive serialisation like any
+/// other: decode, byte-identical re-encoding, same basis (incl. the recomputed G'), same
+/// public key, and it must sign.
+fn boundary_keys_v<V: Fv>(ctx: &Ctx, nkeys: usize, per_key: usize, rep: &mut Report) {
+    let (keys, _bad) = crate::pool::keys::<V>(ctx.seed, "c05-boundary", nkeys);
+    let r = par_for(keys.len(), ncpu(), |ki, rep| {
+        let k = &keys[ki];
+        let b0 = V::basis(&k.sk);
+        let g: Vec<i64> = b0[0].iter().map(|&x| x as i64).collect();
+        let f: Vec<i64> = b0[1].iter().map(|&x| -(x as i64)).collect();
+        let cg: Vec<i64> = b0[2].iter().map(|&x| x as i64).collect();
+        let cf: Vec<i64> = b0[3].iter().map(|&x| -(x as i64)).collect();
+        let pkb = V::pk_to_bytes(&k.pk);
+        let h = spec::pk_fields(&pkb[1..]);
+        let mut found: Vec<(String, Vec<i64>, Vec<i64>)> = vec![];
+        let mut quota: std::collections::HashMap<&str, u32> = std::collections::HashMap::new();
+        'search: for c in [1i64, -1, 2, -2, 3, -3, 4, -4] {
+            for j in 0..V::N {
+                let sf = shift(&f, j);
+                let sg = shift(&g, j);
+                let f2: Vec<i64> = (0..V::N).map(|i| cf[i] + c * sf[i]).collect();
+                let g2: Vec<i64> = (0..V::N).map(|i| cg[i] + c * sg[i]).collect();
+                let (fmax, fmin) = (*f2.iter().max().unwrap(), *f2.iter().min().unwrap());
+                let (gmax, gmin) = (*g2.iter().max().unwrap(), *g2.iter().min().unwrap());
+                if fmax > 127 || fmin < -127 || gmax > 127 || gmin < -127 {
+                    continue;
+                }
+                let mut tags = vec![];
+                if gmax == 127 {
+                    tags.push("G=+127");
+                }
+                if gmin == -127 {
+                    tags.push("G=-127");
+                }
+                if fmax == 127 {
+                    tags.push("F=+127");
+                }
+                if fmin == -127 {
+                    tags.push("F=-127");
+                }
+                // at most two keys per boundary per base key
+                if let Some(tag) = tags.into_iter().find(|t| *quota.entry(*t).or_insert(0) < 2) {
+                    *quota.get_mut(tag).unwrap() += 1;
+                    found.push((format!("{} (k = {} x^{})", tag, c, j), f2, g2));
+                }
+                if found.len() >= per_key {
+                    break 'search;
+                }
+            }
+        }
+        for (tag, f2, g2) in found {
+            rep.evaluations += 1;
+            let bytes = spec::sk_encode(&f, &g, &f2);
+            let replay = json!({"variant": V::NAME, "seed": hex(&k.seed), "boundary": tag, "sk": hex(&bytes)});
+            // sanity of the construction (harness side): still an NTRU completion
+            let fg = spec::negamul_z(&f, &g2);
+            let gf = spec::negamul_z(&g, &f2);
+            if !(0..V::N).all(|i| fg[i] - gf[i] == if i == 0 { spec::Q as i128 } else { 0 }) {
+                rep.inconclusive("boundary key construction is not an NTRU completion (harness error)".into());
+                continue;
+            }
+            match monitored(|| V::sk_from_bytes(&bytes)) {
+                Err(p) => rep.violation(&format!("panic:sk_from_bytes@{}", short_loc(&p.location)), p.message.clone(), replay),
+                Ok(Err(e)) => rep.violation("sk:valid-boundary-key-rejected", format!("{}: a valid secret key whose extreme coefficient is {} is rejected by from_bytes: {}", V::NAME, tag, e), replay),
+                Ok(Ok(sk2)) => {
+                    let b2 = V::basis(&sk2);
+                    let same = b2[0].iter().map(|&x| x as i64).eq(g.iter().cloned())
+                        && b2[1].iter().map(|&x| -(x as i64)).eq(f.iter().cloned())
+                        && b2[2].iter().map(|&x| x as i64).eq(g2.iter().cloned())
+                        && b2[3].iter().map(|&x| -(x as i64)).eq(f2.iter().cloned());
+                    if !same || V::sk_to_bytes(&sk2) != bytes {
+                        rep.violation("sk:boundary-key-roundtrip-differs", format!("{}: secret key with {} decodes to a different basis / re-encodes differently", V::NAME, tag), replay.clone());
+                        continue;
+                    }
+                    if V::pk_to_bytes(&V::pk_from_sk(&sk2)) != pkb {
+                        rep.violation("sk:boundary-key-public-key-differs", format!("{}: public key derived from the decoded boundary key differs", V::NAME), replay.clone());
+                    }
+                    let msg = b"boundary key".to_vec();
+                    let out = sign_honest::<V>(&msg, &sk2, ctx.seed, &format!("c05-bk-{}-{}", hex(&k.seed[..6]), tag));
+                    match out.sig {
+                        Ok(sig) => {
+                            let sb = V::sig_to_bytes(&sig);
+                            let v1 = monitored(|| V::verify(&msg, &sig, &k.pk)).unwrap_or(false);
+                            let v2 = sb.len() == V::SIG_LEN && spec::verify_traced(&msg, &sb[1..41], &sb[41..], &h).0;
+                            if !v1 || !v2 {
+                                rep.violation("sig:boundary-key-signature-rejected", format!("{}: signature made with a decoded boundary key ({}) rejected: verify = {}, reference = {}", V::NAME, tag, v1, v2), replay.clone());
+                            }
+                        }
+                        Err(p) => rep.violation("sign:fails-with-boundary-key", format!("{}: sign with a decoded boundary key ({}) failed: {}", V::NAME, tag, p.message), replay.clone()),
+                    }
+                    rep.count("boundary_keys_roundtripped", 1);
+                    rep.count(&format!("boundary_{}", &tag[..6]), 1);
+                    rep.nontrivial(format!("{}|{}|{}", V::NAME, hex(&k.seed[..6]), tag).as_bytes());
+                    if ki == 0 {
+                        rep.sample(json!({"variant": V::NAME, "base_seed": hex(&k.seed), "boundary": tag, "max_abs_F": f2.iter().map(|x| x.abs()).max(), "max_abs_G": g2.iter().map(|x| x.abs()).max()}));
+                    }
+                }
+            }
+        }
+    });
+    rep.merge(r);
+}
+
+pub fn boundary_keys(ctx: &Ctx, rep: &mut Report) {
+    boundary_keys_v::<F1024>(ctx, ctx.sz(3, 24), 8, rep);
+    boundary_keys_v::<F512>(ctx, ctx.sz(8, 60), 8, rep);
+    rep.require("boundary_keys_roundtripped", 16);
+    for k in ["boundary_G=+127", "boundary_G=-127", "boundary_F=+127", "boundary_F=-127"] {
+        rep.require(k, 1);
+    }
+}
+
 pub fn replay(r: &Value) -> bool {
+    if let Some(skh) = r["sk"].as_str() {
+        let b = unhex(skh);
+        let out = if r["variant"] == "falcon512" { F512::sk_from_bytes(&b).map(|k| F512::sk_to_bytes(&k) == b) } else { F1024::sk_from_bytes(&b).map(|k| F1024::sk_to_bytes(&k) == b) };
+        println!("boundary key {}: from_bytes -> {:?} (Ok(true) = accepted and re-encodes identically)", r["boundary"], out);
+        return out == Ok(true);
+    }
     let mut rep = Report::new();
     let mut seed = [0u8; 32];
     seed.copy_from_slice(&unhex(r["seed"].as_str().unwrap()));
